@@ -7,11 +7,13 @@ EXPLANATION = (
     "their role arguments, the node constructor's (var, lo, hi) roles) is extracted by let-chasing and compared with the "
     "textbook ZDD recurrences; the early-return prefix (terminal cases) is compared with its table as well. A wrong operand "
     "in one branch changes the family computed for every input that reaches the branch."
+    " count: |Empty| = 0, |Base| = 1, |node| = count(lo) + count(hi) in all three counters; membership: Empty -> false, Base -> all elements consumed, node: var == e -> hi (advance), var > e -> false, else lo, in both walkers."
 )
 DECIDED = [
     "recursion term of every (top-variable) case of union/intersection/difference in ZddArena::*_refs and ops::*::*_rec",
     "terminal-case prefix (early returns) of the same functions",
     "product_with_optional_rec cases (n.var < var, == var, > var) in both implementations",
+    "count and membership recurrences",
 ]
 NOT_DECIDED = ["iteration order (see C07)", "remapping between tables (remap_nodes)", "cache key correctness beyond commutativity normalisation"]
 
